@@ -125,6 +125,7 @@ class NFA:
         self.tail = "any"          # what may follow the core match: "any" (match/search), "end" (\Z or fullmatch), "eol" ($)
         self.groups: Dict[str, int] = {}
         self.pattern = ""
+        self.ignorecase = ""       # "" | "ascii" | "unicode"
 
     def new(self) -> int:
         s = self.n
@@ -158,11 +159,12 @@ def build(pattern, flags: int = 0, api: str = "match") -> NFA:
     except re.error as e:
         raise AnalysisError(f"pattern does not parse: {e}")
     eff = tree.state.flags
-    if eff & (re.IGNORECASE | re.MULTILINE | re.LOCALE):
-        raise AnalysisError("regex flags IGNORECASE/MULTILINE/LOCALE are not modelled")
+    if eff & (re.MULTILINE | re.LOCALE):
+        raise AnalysisError("regex flags MULTILINE/LOCALE are not modelled")
     dotall = bool(eff & re.DOTALL)
     ascii_only = is_bytes or bool(eff & re.ASCII)
     nfa = NFA(is_bytes)
+    nfa.ignorecase = "ascii" if (eff & re.IGNORECASE and ascii_only) else "unicode" if eff & re.IGNORECASE else ""
     nfa.pattern = pattern if isinstance(pattern, str) else pattern.decode("latin-1")
     nfa.groups = dict(tree.state.groupdict)
     items = list(tree)
@@ -183,6 +185,80 @@ def build(pattern, flags: int = 0, api: str = "match") -> NFA:
     f = _seq(nfa, items, s, dotall, ascii_only)
     nfa.final = f
     return nfa
+
+
+_CASE_TABLES: Dict[str, tuple] = {}
+
+
+def _case_tables(mode: str):
+    """(lower, inverse-lower, inverse-upper-of-lower, fixes) as the sre engine uses them for IGNORECASE matching."""
+    if mode in _CASE_TABLES:
+        return _CASE_TABLES[mode]
+    import _sre
+    top = 0x110000 if mode == "unicode" else 256
+    low_f = _sre.unicode_tolower if mode == "unicode" else _sre.ascii_tolower
+    low = [low_f(c) for c in range(top)]
+    inv_low: Dict[int, List[int]] = {}
+    inv_up: Dict[int, List[int]] = {}
+    for c in range(top):
+        l = low[c]
+        if l != c:
+            inv_low.setdefault(l, []).append(c)
+        if mode == "unicode":
+            try:
+                u = ord(chr(l).upper()) if len(chr(l).upper()) == 1 else l
+            except ValueError:
+                u = l
+        else:
+            u = l - 32 if 97 <= l <= 122 else l
+        if u != c:
+            inv_up.setdefault(u, []).append(c)
+    fixes: Dict[int, tuple] = {}
+    if mode == "unicode":
+        try:
+            from re import _casefix
+            fixes = dict(_casefix._EXTRA_CASES)
+        except Exception:
+            fixes = {}
+    _CASE_TABLES[mode] = (low, inv_low, inv_up, fixes)
+    return _CASE_TABLES[mode]
+
+
+def _ignorecase(nfa: NFA, cs: CharSet) -> CharSet:
+    """Characters an IGNORECASE match accepts for the (positive) set cs: c with lower(c) or upper(lower(c)) in the lowered,
+    fix-extended set - the engine's own rule, so that e.g. KELVIN SIGN matches [k] and LONG S matches [s] in a str pattern."""
+    mode = nfa.ignorecase
+    if not mode:
+        return cs
+    low, inv_low, inv_up, fixes = _case_tables(mode)
+    top = len(low)
+    sprime = set()
+    total = sum(hi - lo + 1 for lo, hi in cs.iv)
+    if total > 300000:
+        raise AnalysisError("IGNORECASE over a very large character class is not modelled")
+    for lo_, hi_ in cs.iv:
+        for c in range(lo_, min(hi_, top - 1) + 1):
+            l = low[c]
+            sprime.add(l)
+            for k in fixes.get(l, ()):
+                sprime.add(k)
+    acc = set()
+    for l in sprime:
+        if low[l] == l:
+            acc.add(l)
+        acc.update(inv_low.get(l, ()))
+        acc.update(inv_up.get(l, ()))
+        # c with upper(lower(c)) == l where c == l itself
+        acc.add(l) if low[l] == l else None
+    out = sorted(acc)
+    iv = []
+    for c in out:
+        if iv and iv[-1][1] + 1 == c:
+            iv[-1] = (iv[-1][0], c)
+        else:
+            iv.append((c, c))
+    res = CharSet(iv).union(cs)
+    return res.intersect(CharSet([(0, nfa.top)]))
 
 
 def _charset_of_in(nfa: NFA, av, ascii_only: bool) -> CharSet:
@@ -208,6 +284,7 @@ def _charset_of_in(nfa: NFA, av, ascii_only: bool) -> CharSet:
             cs = cs.union(c)
         else:
             raise AnalysisError(f"regex class item {op} not modelled")
+    cs = _ignorecase(nfa, cs)
     return cs.complement(nfa.top) if neg else cs
 
 
@@ -221,11 +298,11 @@ def _seq(nfa: NFA, items, s: int, dotall: bool, ascii_only: bool) -> int:
 def _node(nfa: NFA, op, av, s: int, dotall: bool, ascii_only: bool) -> int:
     if op is C.LITERAL:
         t = nfa.new()
-        nfa.add_pos(s, t, CharSet([(av, av)]))
+        nfa.add_pos(s, t, _ignorecase(nfa, CharSet([(av, av)])))
         return t
     if op is C.NOT_LITERAL:
         t = nfa.new()
-        nfa.add_pos(s, t, CharSet([(av, av)]).complement(nfa.top))
+        nfa.add_pos(s, t, _ignorecase(nfa, CharSet([(av, av)])).complement(nfa.top))
         return t
     if op is C.ANY:
         t = nfa.new()
